@@ -151,13 +151,17 @@ F6Fixed == { Esc("w"), Esc("W"), Cat(<<Wb(FALSE), Dot>>), Cat(<<Dot, Wb(TRUE)>>)
              Cls(FALSE, <<IR(ca, 122)>>), Cls(TRUE, <<IR(ca, 122)>>), Cls(FALSE, <<IR(65, 90)>>),
              Cls(FALSE, <<IE("w")>>), Cls(TRUE, <<IE("w")>>), Cls(FALSE, <<IE("W")>>),
              Cls(TRUE, <<IE("W")>>), Star(Esc("w")), Cat(<<Grp(Esc("w")), Star(BRef(1))>>),
-             Mod(<<"i">>, <<>>, Chr(cs)), Cat(<<Mod(<<>>, <<"i">>, Chr(cs)), Chr(ck)>>) }
+             Mod(<<"i">>, <<>>, Chr(cs)), Cat(<<Mod(<<>>, <<"i">>, Chr(cs)), Chr(ck)>>),
+             \* boundaries and class escapes inside quantified groups (the optimizer copies loop bodies)
+             Plus(Ncg(Cat(<<Wb(FALSE), Dot>>))), Rep(Ncg(Cat(<<Dot, Wb(TRUE)>>)), 2, 2, TRUE),
+             Cat(<<Bol, Rep(Ncg(Cat(<<Wb(FALSE), Esc("w"), Wb(FALSE), Esc("W")>>)), 1, 2, TRUE), Eol>>),
+             Rep(Ncg(Cat(<<Wb(FALSE), Chr(cDash)>>)), 1, 3, FALSE), Rep(Ncg(Alt(<<Esc("W"), Cat(<<Wb(TRUE), Chr(cs)>>)>>)), 2, 3, TRUE) }
 F6Pats == UNION {F6Atoms(c) : c \in F6Chars} \cup F6Fixed
 F6Flags == { Flags(TRUE, FALSE, FALSE, FALSE, FALSE), Flags(TRUE, FALSE, FALSE, TRUE, FALSE),
              Flags(TRUE, FALSE, FALSE, FALSE, TRUE), NoFlags }
 F6 == UNION {With(F6Pats, fl) : fl \in F6Flags}
 \* (U+0000 is there because unused slots of a small character set must not match anything)
-F6Hay == [alpha |-> F6Chars \cup {cSP, 0}, maxlen |-> 2]
+F6Hay == [alpha |-> F6Chars \cup {cSP, 0, cDash}, maxlen |-> 2]
 
 (***************************************************************************)
 (* F7: literal runs (byte-sequence lowering, chunking at 16 bytes, both    *)
@@ -224,7 +228,10 @@ F8mPats == {Alt(<<x, y>>) : x \in F8mLits, y \in F8mLits} \cup {Cat(<<Ncg(Alt(<<
              \cup {Alt(<<x, y, z>>) : x \in {Chr(cEacute), Chr(cEuro)}, y \in {Chr(cEgrave), Chr(cKip)}, z \in {A, Chr(cEacute)}}
 F8mSets == { VCls(FALSE, SQ(<<Str(ca, cb), <<cc>>>>)), VCls(FALSE, SQ(<<Str(cK, ca), Str(cs, cs)>>)),
              Cat(<<VCls(FALSE, SQ(<<Str(ca, cb), Str(cx, cx)>>)), Opt(A)>>), Alt(<<VCls(FALSE, SQ(<<Str(ca, cb)>>)), Chr(cc)>>),
-             VCls(FALSE, SU(<<SQ(<<Str(ca, cb)>>), SC(cEacute)>>)) }
+             VCls(FALSE, SU(<<SQ(<<Str(ca, cb)>>), SC(cEacute)>>)),
+             \* string sets matched backwards
+             Cat(<<Look(VCls(FALSE, SQ(<<Str(ca, cb)>>)), TRUE, FALSE), Chr(ck)>>),
+             Cat(<<Look(VCls(FALSE, SQ(<<Str(ca, cb), <<ca, cb, ck>>>>)), TRUE, TRUE), Eol>>) }
 F8m == With(F8mPats, NoFlags)
          \cup UNION {With(F8mSets, fl) : fl \in {Flags(FALSE, FALSE, FALSE, FALSE, TRUE), Flags(TRUE, FALSE, FALSE, FALSE, TRUE)}}
 F8mHay == [alpha |-> {ca, cEacute, cEgrave, cEuro, cKip, 65, cb, ck}, maxlen |-> 2]
